@@ -4,7 +4,7 @@
    spec_run / spec_answer / informativeb / carriers (Model/C18.v) are loop-free and do not look at the mode flags. *)
 From Coq Require Import ZArith List Bool.
 Import ListNotations.
-From SCMO Require Import Lib.Val Model.C18 Proofs.C18_a Proofs.C18_b Proofs.C18_c Proofs.C18_d Proofs.C18_e Proofs.C18.
+From SCMO Require Import Lib.Val Model.C18 Proofs.C18_a Proofs.C18_b Proofs.C18_c Proofs.C18_d Proofs.C18_e Proofs.C18_f Proofs.C18.
 Open Scope Z_scope.
 
 (* ---- C18_spec: eager loading answers exactly what the VCF says *)
@@ -118,6 +118,23 @@ Theorem C18_cache_name_contig : forall cf c1 c2, cache_name cf c1 = cache_name c
 Proof. exact cache_name_contig. Qed.
 Print Assumptions C18_cache_name_contig.
 
+(* ---- several resolver OBJECTS alive in one process (each with its own settings and mode flags, constructed at first
+        use, operations interleaved in any order, one shared cache directory): every answer of an object is the
+        specification for that object's own settings - independent of which other objects exist and what they loaded *)
+Theorem C18_objects_independent : forall v objs ops, vcf_ok v = true -> sess_ok objs ops = true ->
+  snd (run_session v objs ([], []) ops) = map (spec_op v objs) ops.
+Proof. exact objects_independent. Qed.
+Print Assumptions C18_objects_independent.
+
+Theorem C18_objects_independent_pair : forall v objs1 ops1 objs2 ops2 n1 n2, vcf_ok v = true ->
+  sess_ok objs1 ops1 = true -> sess_ok objs2 ops2 = true ->
+  (n1 < length ops1)%nat -> (n2 < length ops2)%nat ->
+  obj_cfg objs1 (fst (nth n1 ops1 (0%nat, QHas [] 0))) = obj_cfg objs2 (fst (nth n2 ops2 (0%nat, QHas [] 0))) ->
+  snd (nth n1 ops1 (0%nat, QHas [] 0)) = snd (nth n2 ops2 (0%nat, QHas [] 0)) ->
+  nth n1 (snd (run_session v objs1 ([], []) ops1)) ANone = nth n2 (snd (run_session v objs2 ([], []) ops2)) ANone.
+Proof. exact objects_independent_pair. Qed.
+Print Assumptions C18_objects_independent_pair.
+
 (* equal settings (possibly written differently) build the same table: what makes a shared cache file sound *)
 Theorem C18_same_settings_same_table : forall cf1 cf2 r, same_sem cf1 cf2 = true -> informative cf1 r = informative cf2 r.
 Proof. exact same_sem_informative. Qed.
@@ -157,6 +174,18 @@ Example C18_example :
   length (fst (run_history ex_vcf [] ex_hist)) = 4%nat.
 Proof. vm_compute. repeat split. Qed.
 Print Assumptions C18_example.
+
+(* object 0 eager on all samples, object 1 lazy on S1 only (created after 0 was used), object 2 eager ignoring C>T *)
+Example C18_objects_example :
+  let objs := [ex_cfg false false None;
+               {| c_phased := true; c_select := Some [ex_S1]; c_ignore := None; c_lazy := true; c_cache := false; c_chrom := None |};
+               ex_cfg false false (Some [(ex_C, ex_T)])] in
+  let ops := [(0%nat, QGet ex_chr1 9 ex_A); (1%nat, QGet ex_chr1 9 ex_A); (0%nat, QGet ex_chr1 19 ex_T);
+              (2%nat, QGet ex_chr1 19 ex_T); (1%nat, QHas ex_chr1 19); (0%nat, QHas ex_chr1 19)] in
+  sess_ok objs ops = true /\
+  snd (run_session ex_vcf objs ([], []) ops) = [ASome [ex_S1; ex_S2]; ANone; ASome [ex_S2]; ANone; ABool false; ABool true].
+Proof. vm_compute. split; reflexivity. Qed.
+Print Assumptions C18_objects_example.
 
 (* the "monomorphic" rule: a missing genotype re-admits a site that carries a multi-base allele *)
 Example C18_multibase_readmitted :
